@@ -7,6 +7,7 @@ import Driver.Acl
 import Driver.WsJson
 import Driver.HttpCodec
 import Driver.WsStore
+import Driver.Stats
 import Driver.UdpNet
 
 def main (args : List String) : IO UInt32 := do
@@ -20,6 +21,7 @@ def main (args : List String) : IO UInt32 := do
   | ["wsjson"] => WsJsonDrv.main; return 0
   | ["httpcodec"] => HttpCodecDrv.main; return 0
   | ["wsstore"] => WsStoreDrv.main; return 0
+  | ["stats"] => StatsDrv.main; return 0
   | ["udpnet"] => UdpNetDrv.main; return 0
   | _ =>
     IO.eprintln "usage: driver <family>   (lines on stdin)"
